@@ -40,13 +40,13 @@ ASSUMPTIONS = c02.ASSUMPTIONS[:5] + [
 
 
 def bounds(tier):
-    return {"N": [1, 4 if tier == "quick" else 5], "n_requested": [1, 2 if tier == "quick" else 3], "init_batch_size": "1, 2 or None with growth_factor 1..2",
+    return {"N": [1, 4 if tier == "quick" else 6], "n_requested": [1, 2 if tier == "quick" else 3], "init_batch_size": "1, 2 or None with growth_factor 1..2",
             "max_prior_samples": "None or N-1", "n_linear_samples": [1, 2], "entries": ["inmem", "file", "api(in_memory True/False)"]}
 
 
 def shapes(tier, focus="C14"):
     out = []
-    Ns = [2, 3, 4] if tier == "quick" else [2, 3, 4, 5]
+    Ns = [2, 3, 4] if tier == "quick" else [2, 3, 4, 5, 6]
     for N in Ns:
         for req in ([1, 2] if tier == "quick" else [1, 2, 3]):
             if req > N:
@@ -54,7 +54,9 @@ def shapes(tier, focus="C14"):
             for init in (1, 2):
                 if init > N:
                     continue
-                if N == 5 and (req, init) not in ((2, 2), (3, 2)):
+                if N == 5 and (req, init) not in ((2, 2), (3, 2), (2, 1)):
+                    continue
+                if N == 6 and (req, init) not in ((3, 2),):
                     continue
                 out.append({"mode": "inmem", "N": N, "req": req, "init": init, "growth": 128, "n_lin": 1 + (N + req) % 2, "nonfinite": None})
                 if N <= 4:
